@@ -315,6 +315,7 @@ enum IntOp {
     WithCapacity(usize, usize),
     Iter,
     IntoIter,
+    IntoRaw,
 }
 
 fn trunc(v: u64, w: usize) -> u64 { if w >= 64 { v } else { v & ((1u64 << w) - 1) } }
@@ -413,6 +414,17 @@ fn int_apply(ctx: &mut Ctx, v: &mut IntVector, m: &mut IntModel, op: &IntOp, his
             let got = guard(|| { let it = v.clone().into_iter(); let l = it.len(); (it.collect::<Vec<u64>>(), l) });
             ok &= ctx.expect_eq("int.into_iter", || format!("into_iter() after {}", hist()), &got, &(m.items.clone(), m.items.len()));
         },
+        IntOp::IntoRaw => {
+            // The bits of the integer vector as a raw vector: items back to back, least significant bit first, clean tail.
+            match guard(|| RawVector::from(v.clone())) {
+                Ok(raw) => {
+                    let mut bits: Vec<bool> = Vec::with_capacity(m.items.len() * m.width);
+                    for x in m.items.iter() { for b in 0..m.width { bits.push((x >> b) & 1 == 1); } }
+                    ok &= raw_state_check(ctx, &raw, &bits, &|| format!("RawVector::from(IntVector) after {}", hist()));
+                },
+                Err(p) => { ctx.violation("int.into_raw!panic", format!("{} after {}", p, hist())); ok = false; },
+            }
+        },
     }
     ok & int_state_check(ctx, v, m, hist)
 }
@@ -464,6 +476,7 @@ fn int_random_op(rng: &mut Rng, m: &IntModel, max_len: usize) -> IntOp {
             20 => return IntOp::WithCapacity(rng.below(50), 1 + rng.below(64)),
             21 => return IntOp::Iter,
             22 => return IntOp::IntoIter,
+            23 => return IntOp::IntoRaw,
             _ => {},
         }
     }
